@@ -470,6 +470,7 @@ impl Exec {
                         ),
                         "J C03 ok",
                     );
+                    self.emit(format!("judge.C03a {tr}"), "J C03 ok");
                     self.emit(format!("judge.C08 {tr}"), "J C08 ok");
                     self.emit(format!("judge.C12 {}", r.obs.join(",")), "J C12 ok");
                     self.emit(format!("judge.C13 {tr} {rets_s}"), "J C13 ok");
@@ -484,6 +485,10 @@ impl Exec {
                 let ids: Vec<OrderId> = snap.orders.iter().map(|o| o.id()).collect();
                 let raw_listing: Vec<Order> = snap.orders.iter().map(|a| **a).collect();
                 let lvl: &PriceLevel = &self.lvl;
+                // how big the lies of the lying routes are: a few units off, zero, the 64-bit maximum, or 2^40
+                let lie_sel = (self.issued as usize + self.n_adds as usize + ids.len()) % 4;
+                let lie = |v: u64, off: u64| -> u64 { match lie_sel { 0 => v.wrapping_add(off), 1 => 0, 2 => u64::MAX, _ => (1u64 << 40) + off } };
+                let lie_n = |v: usize, off: usize| -> usize { match lie_sel { 0 => v.wrapping_add(off), 1 => 0, 2 => usize::MAX, _ => (1usize << 40) + off } };
                 let res = catch_unwind(AssertUnwindSafe(|| -> Result<PriceLevel, String> {
                     match *kind {
                         "snapshot" => PriceLevel::from_snapshot(snap.clone()).map_err(|e| e.to_string()),
@@ -522,17 +527,22 @@ impl Exec {
                         }
                         "lying-snapshot" => {
                             let mut s2 = snap.clone();
-                            s2.visible_quantity = s2.visible_quantity.wrapping_add(17);
-                            s2.hidden_quantity = 3;
-                            s2.order_count = s2.order_count.wrapping_add(2);
+                            s2.visible_quantity = lie(s2.visible_quantity, 17);
+                            s2.hidden_quantity = lie(3, 0);
+                            s2.order_count = lie_n(s2.order_count, 2);
                             PriceLevel::from_snapshot(s2).map_err(|e| e.to_string())
                         }
                         "lying-from" | "lying-package" | "lying-json" => {
                             let mut s2 = snap.clone();
-                            s2.visible_quantity = s2.visible_quantity.wrapping_add(23);
-                            s2.hidden_quantity = s2.hidden_quantity.wrapping_add(5);
-                            s2.order_count = s2.order_count.wrapping_add(1);
+                            s2.visible_quantity = lie(s2.visible_quantity, 23);
+                            s2.hidden_quantity = lie(s2.hidden_quantity, 5);
+                            s2.order_count = lie_n(s2.order_count, 1);
                             match *kind {
+                                // the lying snapshot as a JSON document of its own (an externally supplied snapshot:
+                                // its carried figures are whatever the sender wrote), decoded and then restored
+                                "lying-from" if lie_sel >= 2 => serde_json::to_string(&s2).map_err(|e| e.to_string())
+                                    .and_then(|j| serde_json::from_str::<pricelevel::PriceLevelSnapshot>(&j).map_err(|e| e.to_string()))
+                                    .map(|s3| PriceLevel::from(&s3)),
                                 "lying-from" => Ok(PriceLevel::from(&s2)),
                                 "lying-package" => pricelevel::PriceLevelSnapshotPackage::new(s2)
                                     .and_then(PriceLevel::from_snapshot_package)
@@ -545,9 +555,9 @@ impl Exec {
                         }
                         "lying-serde" => {
                             let mut d = pricelevel::PriceLevelData::from(lvl);
-                            d.visible_quantity = d.visible_quantity.wrapping_add(4);
-                            d.hidden_quantity = d.hidden_quantity.wrapping_add(40);
-                            d.order_count = 0;
+                            d.visible_quantity = lie(d.visible_quantity, 4);
+                            d.hidden_quantity = lie(d.hidden_quantity, 40);
+                            d.order_count = lie_n(0, 0);
                             serde_json::to_string(&d)
                                 .map_err(|e| e.to_string())
                                 .and_then(|j| serde_json::from_str::<PriceLevel>(&j).map_err(|e| e.to_string()))
@@ -557,14 +567,14 @@ impl Exec {
                             let orders: Vec<String> = raw_listing.iter().map(|o| o.to_string()).collect();
                             let txt = format!(
                                 "PriceLevel:price={};visible_quantity={};hidden_quantity={};order_count={};orders=[{}]",
-                                lvl.price(), lvl.visible_quantity().wrapping_add(3), 77, 12345, orders.join(","));
+                                lvl.price(), lie(lvl.visible_quantity(), 3), lie(77, 0), lie_n(12345, 0), orders.join(","));
                             PriceLevel::from_str(&txt).map_err(|e| e.to_string())
                         }
                         "lying-data" => {
                             let mut d = pricelevel::PriceLevelData::from(lvl);
-                            d.visible_quantity = d.visible_quantity.wrapping_add(9);
-                            d.hidden_quantity = 1;
-                            d.order_count = 77;
+                            d.visible_quantity = lie(d.visible_quantity, 9);
+                            d.hidden_quantity = lie(1, 0);
+                            d.order_count = lie_n(77, 0);
                             PriceLevel::try_from(d).map_err(|e| e.to_string())
                         }
                         _ => Err("unknown rebuild kind".to_string()),
